@@ -322,7 +322,7 @@ pub fn run(cfg: &RunCfg) -> PropRun {
     run.stats.exhaustive_subspaces.push(json!({"name": "bit-boundary pairs: fields from {0,1,2^k-1,2^k,2^k+1}, k=1..50, all ordered pairs per k", "versions_per_k": 125, "pairs": 50 * 125 * 125}));
 
     // (b) random related lists
-    let total = cfg.pick(60_000, 1_500_000);
+    let total = cfg.pick(300_000, 3_000_000);
     let out = campaign(
         cfg,
         ID,
